@@ -10,12 +10,20 @@ Streams
                  plus purity of the may_ segment (slots, arguments, no state change of any model);
   * routing      raising prepare/condition callbacks with and without on_exception handlers on all those classes:
                  raised without handlers, handled (normal return, every handler called) with them.
+  * nested-model (harness/nestedmay.py) generated hierarchical machines (compound / parallel states, local and global
+                 transitions, transitions on ancestors, unresolvable destinations, raising prepare / condition callbacks
+                 with and without on_exception, unknown event names, histories mixing triggers and may_ calls, also
+                 re-entrant from callbacks): implementation trace == trace of the Lean model of
+                 `HierarchicalMachine._can_trigger` / `_can_trigger_nested` (`Model/NestedMay.lean`, for which
+                 C12_nested / C12_nested_pure / C12_nested_baddest / the routing theorems are proved), on
+                 HierarchicalMachine and (single-callback stages) HierarchicalAsyncMachine; purity oracle on every
+                 implementation trace; may-vs-trigger twin oracle on the deterministic descriptions.
 """
 import asyncio
 import inspect
 import random
 
-from .. import common, flat, flatcheck, runner, aflat, anested
+from .. import common, flat, flatcheck, runner, aflat, anested, nestedmay
 from ..common import SLOT
 from ..flat import TRIGGER, MAY, ename
 from ..runner import Exploration, Failure
@@ -528,6 +536,25 @@ class C12(flatcheck.FlatCheck):
             fails += part.failures
             part.failures = []
             ex.merge(part)
+        # the hierarchical engine model of may_ (Model/NestedMay.lean): correspondence + oracles
+        nfails = []
+        for part in runner.parallel(nestedmay.chunk, self.nested_payloads(tier, seed)):
+            nfails += part.failures
+            part.failures = []
+            ex.merge(part)
+        ndone = set()
+        for f in nfails:
+            key = (f.kind, f.what)
+            if key not in ndone:
+                ndone.add(key)
+                try:
+                    f.case = runner.shrink(f.case, self.nested_fails_like(f), nestedmay.shrink_steps,
+                                           budget=12 if f.what.startswith('hang') else 200)
+                except common.MachineryError:
+                    raise
+                except BaseException:
+                    pass
+            ex.failures.append(f)
         done = set()
         for f in fails:
             key = (f.kind, f.what)
@@ -538,14 +565,50 @@ class C12(flatcheck.FlatCheck):
             ex.failures.append(f)
         return ex
 
+    NESTED_STREAMS = (  # name, quick (chunks, per chunk), thorough
+        ('nested-model', (16, 110), (48, 500)),
+        ('nested-model-small', (8, 110), (24, 500)),
+        ('nested-model-parallel', (8, 110), (24, 500)),
+        ('nested-twin', (16, 14), (32, 110)),
+        ('nested-twin-parallel', (8, 14), (16, 110)),
+    )
+
+    def nested_payloads(self, tier, seed):
+        out = []
+        for name, q, t in self.NESTED_STREAMS:
+            nch, per = q if tier == 'quick' else t
+            out += [(seed, i, per, name) for i in range(nch)]
+        return out
+
+    def nested_fails_like(self, f):
+        def fn(case):
+            return any(x.kind == f.kind and x.what == f.what for x in nestedmay.rejudge(case))
+        return fn
+
+    def search(self, tier, seed, failures):
+        found = flatcheck.FlatCheck.search(self, tier, seed, failures)
+        if found:
+            return found
+        # the nested model broke without a property failure in the regular run: the oracles of the nested streams,
+        # fresh seeds, more budget
+        payloads = [(seed + 7919, i, 60, name) for name in ('nested-twin', 'nested-twin-parallel') for i in range(16)]
+        payloads += [(seed + 7919, i, 250, name) for name in ('nested-model', 'nested-model-parallel') for i in range(16)]
+        for part in runner.parallel(nestedmay.chunk, payloads):
+            found += [f for f in part.failures if f.kind == 'monitor']
+        for f in found[:1]:
+            f.case = runner.shrink(f.case, self.nested_fails_like(f), nestedmay.shrink_steps, budget=200)
+        return found
+
     def rejudge(self, case):
+        if case.get('nested_may'):
+            return None, None, None, None, nestedmay.rejudge(case)
         if 'kind' in case:
             fs = [Failure('monitor', w, case, d, signature=s) for w, d, s in judge_twin(case)[0]]
             return None, None, None, None, fs
         return flatcheck.FlatCheck.rejudge(self, case)
 
     def annotate(self, f):
-        if 'kind' in f.case:
+        if 'kind' in f.case or f.case.get('nested_may'):
             return
         flatcheck.FlatCheck.annotate(self, f)
 
@@ -553,6 +616,8 @@ class C12(flatcheck.FlatCheck):
         import json
         with open(path) as fh:
             payload = json.load(fh)
+        if 'case' in payload and payload['case'].get('nested_may'):
+            return nestedmay.replay(payload['case'])
         if 'case' in payload and 'kind' in payload['case']:
             fs = judge_twin(payload['case'])[0]
             for w, d, s in fs:
